@@ -16,7 +16,7 @@ PROPS = {
     'C11': ['COW', 'CLEARALL', 'HASHCONS', 'CACHELIFE', 'ALPHASRC', 'DISPATCH'],
     'C13': ['TEXT', 'LOADROLE', 'PARAMPATH', 'PAIRFIELD', 'FORWARD', 'SCRATCHRESET', 'NOTHROW', 'COLLECTALL', 'DRAIN', 'BACKTRACK'],
     'C12': ['COW', 'HASHCONS', 'ITER', 'NONEMPTY', 'CLEARALL', 'PARAMPATH', 'USEDSTATES'],
-    'C14': ['KIND', 'COW', 'FORWARD', 'SCRATCHRESET', 'HASHCONS', 'REINDEXALL', 'ALPHASRC'],
+    'C14': ['KIND', 'COW', 'FORWARD', 'SCRATCHRESET', 'HASHCONS', 'REINDEXALL', 'ALPHASRC', 'SIZEEQ'],
     'C15': ['FINCHK', 'WORKLIST', 'DRAIN', 'KIND', 'HASHCONS', 'COW', 'FORWARD', 'COUNTGUARD', 'ACCRET', 'KEPTRULES', 'COLLECTALL', 'ALPHASRC'],
     'C16': ['INSETLABEL', 'COPYALL', 'STALESIZE', 'QUEUEENDS', 'DRAIN', 'COLLECTALL', 'LOOPBOUND', 'INIT', 'ITERINVAL'],
     'C17': ['CANON', 'TEXT', 'BACKTRACK', 'COPYALL'],
@@ -60,6 +60,7 @@ FILTER = {
     ('C08', 'USEMOVE'): r'bdd_|symbolic', ('C15', 'COUNTGUARD'): r'explicit_tree_candidate', ('C03', 'COUNTGUARD'): r'explicit_tree_useless',
     ('C01', 'QUEUEENDS'): r'explicit_tree|antichain', ('C07', 'QUEUEENDS'): r'antichain|tree_incl|bdd_', ('C09', 'QUEUEENDS'): r'explicit_finite|congr_product|antichain',
     ('C12', 'COW'): r'explicit_tree',
+    ('C14', 'SIZEEQ'): r'explicit_tree',
     ('C17', 'COPYALL'): r'mtbdd/', ('C18', 'COPYALL'): r'mtbdd/',
     ('C02', 'ALPHASRC'): r'explicit_tree_(isect|union)', ('C03', 'ALPHASRC'): r'explicit_tree_(useless|unreach)', ('C05', 'ALPHASRC'): r'explicit_tree_(useless|unreach)|explicit_tree_aut_core', ('C10', 'ALPHASRC'): r'explicit_finite', ('C15', 'ALPHASRC'): r'explicit_tree_(candidate|unreach)', ('C14', 'ALPHASRC'): r'explicit_tree_aut_core',
     ('C16', 'COPYALL'): r'explicit_lts|splitting_relation|shared_counter|shared_list|caching_allocator|smart_set|binary_relation', ('C16', 'STALESIZE'): r'explicit_lts|splitting_relation|shared_counter|shared_list|caching_allocator|smart_set|binary_relation', ('C16', 'QUEUEENDS'): r'explicit_lts|splitting_relation|shared_counter|shared_list|caching_allocator|smart_set|binary_relation', ('C16', 'DRAIN'): r'explicit_lts|splitting_relation|shared_counter|shared_list|caching_allocator|smart_set|binary_relation', ('C16', 'COLLECTALL'): r'explicit_lts|splitting_relation|shared_counter|shared_list|caching_allocator|smart_set|binary_relation', ('C16', 'LOOPBOUND'): r'explicit_lts|splitting_relation|shared_counter|shared_list|caching_allocator|smart_set|binary_relation', ('C16', 'INIT'): r'explicit_lts|splitting_relation|shared_counter|shared_list|caching_allocator|smart_set|binary_relation', ('C16', 'ITERINVAL'): r'explicit_lts|splitting_relation|shared_counter|shared_list|caching_allocator|smart_set|binary_relation',
